@@ -56,8 +56,8 @@ class C13(Prop):
     id = "C13"
     level = "fault_enumeration"
     tiers = {
-        "quick": [("share", 180000), ("cancel", 180000), ("sweep", 15000)],
-        "thorough": [("share", 3600000), ("cancel", 3600000), ("sweep", 300000)],
+        "quick": [("share", 120000), ("cancel", 120000), ("sweep", 10000)],
+        "thorough": [("share", 2400000), ("cancel", 2400000), ("sweep", 200000)],
     }
     rule_text = (
         "one case = 2..6 callers over 1..3 keys (function or method flavour), limit 1..2, expiration none/1s, invocation "
